@@ -213,6 +213,10 @@ type FailWriter struct {
 	Accepted []byte
 	Failed   bool
 	Err      error // the error reported (nil = ErrInjected)
+	// FailCall >= 1: another fault plan - exactly the FailCall-th Write call is refused (nothing of it accepted) and every
+	// other call is accepted, also the later ones (a transient fault). Limit is ignored then.
+	FailCall int
+	Calls    int
 }
 
 // WriteErrors are the failures a writer is made to report: whatever its value - also one that the buffering layers of the
@@ -220,6 +224,18 @@ type FailWriter struct {
 var WriteErrors = []error{nil, nil, io.ErrShortWrite, io.ErrClosedPipe, io.EOF, fmt.Errorf("disk full: %w", io.ErrShortWrite)}
 
 func (w *FailWriter) Write(p []byte) (int, error) {
+	w.Calls++
+	if w.FailCall >= 1 {
+		if w.Calls == w.FailCall {
+			w.Failed = true
+			if w.Err != nil {
+				return 0, w.Err
+			}
+			return 0, ErrInjected
+		}
+		w.Accepted = append(w.Accepted, p...)
+		return len(p), nil
+	}
 	if w.Limit < 0 {
 		w.Accepted = append(w.Accepted, p...)
 		return len(p), nil
